@@ -794,6 +794,7 @@ struct StrSys {
             if ((fl & ST) != 0 && p >= 0 && mpool[std::size_t(p)].s.size() > N) { return; }
             if (k == plus_str2 && mpool[std::size_t(p)].s.size() > N2) { return; }
             if (k == cstr_plus && mpool[std::size_t(p)].s.size() > N) { return; } // builds an inplace_string from the C string first
+            if (k == ch_plus && N < 1) { return; }                                 // builds basic_inplace_string(1, ch) first (\pre count <= Capacity)
             // dry run on a copy of the model: a std exception means the call is not a valid input
             scratch.assign(st.m.data(), st.m.size());
             ModelSide ms{scratch, nullptr};
@@ -1081,7 +1082,7 @@ struct StrSys {
             pid_t const w = fork();
             if (w == 0) {
                 close(req[0]);
-                mc::traps().hang_ticks = 3;
+                mc::traps().hang_ticks = 10;
                 mc::install_signal_handlers(); // interval timers are not inherited
                 for (std::size_t k = 0; k < acts.size(); ++k) {
                     mc::Trap const t = mc::guarded([&] {
@@ -1421,6 +1422,10 @@ struct StrSys {
         eq("capacity", "max_size()", cv.max_size(), N);
         eq("terminator", "data()[size()]", long(cv.data()[s]), 0L);
         eq("terminator", "c_str()==data()", cv.c_str() == cv.data(), true);
+        if (m.find(Char(0)) == M::npos) {
+            // no embedded NUL: data()/c_str() is a C string of exactly size() characters
+            eq("terminator", "strlen(c_str())", std::char_traits<Char>::length(cv.c_str()), s);
+        }
         eq("iterators", "end()-begin()", std::size_t(cv.end() - cv.begin()), s);
         eq("iterators", "cend()-cbegin()", std::size_t(cv.cend() - cv.cbegin()), s);
         eq("iterators", "nonconst end()-begin()", std::size_t(v.end() - v.begin()), s);
@@ -1495,8 +1500,16 @@ struct StrSys {
             }
         };
 
+        // every position 0..size()+1 and npos (boundary configurations with long strings: the boundary values)
         std::vector<std::size_t> positions;
-        for (std::size_t p = 0; p <= s + 1; ++p) { positions.push_back(p); }
+        std::vector<std::size_t> positions1; // pos1 of compare/substr/copy: <= size()
+        if (!cfg.sparse || s <= 8) {
+            for (std::size_t p = 0; p <= s + 1; ++p) { positions.push_back(p); }
+            for (std::size_t p = 0; p <= s; ++p) { positions1.push_back(p); }
+        } else {
+            positions  = {0, 1, s / 2, s - 1, s, s + 1};
+            positions1 = {0, 1, s / 2, s - 1, s};
+        }
         positions.push_back(NPOS);
         auto posk = [&](std::size_t pos) { return pos == NPOS ? 3 : (pos > s ? 2 : (pos == s ? 1 : 0)); };
         auto const cnt1 = cnts(s);
@@ -1657,7 +1670,7 @@ struct StrSys {
                 }
                 // ---- compare with (pos1,count1): pos1 <= size() (std throws otherwise)
                 qc.sub = true;
-                for (std::size_t pos1 = 0; pos1 <= s; ++pos1) {
+                for (std::size_t pos1 : positions1) {
                     qc.posk = posk(pos1);
                     for (long c1l : cnt1) {
                         std::size_t const c1 = sz(c1l);
@@ -1713,7 +1726,7 @@ struct StrSys {
             mc::Trap const trap = mc::guarded([&] {
                 qc.posk = 4;
                 Q("substr()", [] { return std::string(); }, [&](auto const& t, auto) { return t.substr(); });
-                for (std::size_t pos = 0; pos <= s; ++pos) {
+                for (std::size_t pos : positions1) {
                     qc.posk = posk(pos);
                     Q("substr(pos)", [&] { return cat("pos=", pos); }, [&](auto const& t, auto) { return t.substr(pos); });
                     for (long cl : cnt1) {
@@ -1865,34 +1878,30 @@ void add_char(mc::Main& m)
     auto big = [&]<std::size_t N>(std::integral_constant<std::size_t, N>) {
         add<Char, N>(m, both, boundary({0, 1}, 2, 2, 300000), "depth3", true);
         add<Char, N>(m, th, boundary({0, 1}, 2, 3, 1500000), "depth4", true);
-        add<Char, N>(m, th, boundary({0}, 2, 1000, 1500000), "closure-a");
     };
-    (void)small;
-    (void)big;
-#if !defined(MC_GROUP) || MC_GROUP == 1
-    small(std::integral_constant<std::size_t, 0>{});
-    small(std::integral_constant<std::size_t, 1>{});
-    small(std::integral_constant<std::size_t, 2>{});
-    small(std::integral_constant<std::size_t, 3>{});
+    // one capacity per translation unit (-DMC_N=...): the menu is large and compile time is the
+    // dominant cost, above all in the sanitizer flavour
+#if !defined(MC_N)
+    #define MC_N 3
 #endif
-#if !defined(MC_GROUP) || MC_GROUP == 2
-    add<Char, 7>(m, both, closure({0, 1}, 2, 2), "closure");
-    add<Char, 7>(m, th, closure({0, 1}, 3, 2), "closure-L3");
-    add<Char, 7>(m, th, closure({0, 3}, 2, 2), "closure-nul");
+    constexpr std::size_t n = MC_N;
+    if constexpr (n <= 3) {
+        small(std::integral_constant<std::size_t, n>{});
+    } else if constexpr (n <= 8) {
+        add<Char, n>(m, both, closure({0, 1}, 2, 2), "closure");
+#if !defined(MC_FLAVOUR_SAN)
+        add<Char, n>(m, th, closure({0, 1}, 3, 2), "closure-L3");
 #endif
-#if !defined(MC_GROUP) || MC_GROUP == 3
-    big(std::integral_constant<std::size_t, 15>{});
-    big(std::integral_constant<std::size_t, 16>{});
+        add<Char, n>(m, th, closure({0, 3}, 2, 2), "closure-nul");
+    } else {
+        big(std::integral_constant<std::size_t, n>{});
+#if !defined(MC_FLAVOUR_SAN)
+        // fixed point over a one-letter alphabet (2^N states): the layout boundary capacities, two character types
+        if constexpr (n <= 16 && (std::is_same_v<Char, char> || std::is_same_v<Char, char16_t>)) {
+            add<Char, n>(m, th, boundary({0}, 2, 1000, 1500000), "closure-a");
+        }
 #endif
-#if MC_GROUP == 4
-    big(std::integral_constant<std::size_t, 17>{});
-    big(std::integral_constant<std::size_t, 31>{});
-#endif
-#if MC_GROUP == 5
-    big(std::integral_constant<std::size_t, 254>{});
-    big(std::integral_constant<std::size_t, 255>{});
-    big(std::integral_constant<std::size_t, 256>{});
-#endif
+    }
 }
 
 } // namespace
